@@ -890,7 +890,7 @@ fn main() {
     p.crash_guard = asan;
     if asan {
         p.threads = 1;
-        p.thorough_cases = 200_000;
+        p.thorough_cases = 40_000;
     }
     p.assumptions = vec![
         "the hot queue is FIFO and a tick serves it from the head (queue.rs / Executor::tick docs); the model asserts the order and the bounds on how many entries a tick serves, not an exact count",
